@@ -54,6 +54,8 @@ for nnn in (128, 192, 256):
         "tags": spec_tags(["C01", "C02", "C03", "C08", "C09"]), "props": ["C01", "C02", "C03", "C08", "C09", "C06"],
         "unwind": 9, "unbounded": "size <= 2^40, all data, keys, states, domains and round counts", "cost": 20,
     })
+    JOBS.append(dict(JOBS[-1], name="leaf%d.absorb.al" % nnn, defs=["NNN=%d" % nnn, "PROG=12", "TJV_ALIGN"],
+                     unbounded="size <= 2^40, stream at every alignment 0..3 inside a larger object, all data, keys, states, domains and round counts"))
     JOBS.append({
         "name": "leaf%d.absorb.b" % nnn, "files": ["harness/h_leaf.c", "stubs/mon.c", common],
         "defs": ["NNN=%d" % nnn, "PROG=12", "TJV_BOUND=23"], "functions": [fn_abs],
